@@ -159,6 +159,8 @@ mod misc {
             let sequence_hash: i32 = seq_path_str.chars().map(|c| c as i32).sum();
             let random_seed = sequence_hash + loop_index + self.get_state().story_seed;
 
+            #[cfg(bladeink_verif)]
+            crate::verif::note_seed(1, random_seed);
             let mut rng = StdRng::seed_from_u64(random_seed as u64);
 
             let mut unpicked_indices: Vec<i32> = (0..num_elements).collect();
